@@ -12,7 +12,7 @@ props = sorted({p for r in rows.values() for p in r})
 print("# Seeded changes x checks\n")
 print("Produced by `tools/matrix.sh`: every seeded change is applied to a scratch copy of `/repo` (never to `/repo` itself) and "
       "every check's quick command is run against the copy (`VERIF_REPO`).  `1` = VIOLATION with a public-API witness in the "
-      "replay file, `1n` = VIOLATION whose line ends with no-failing-input-found, `0` = exit 0, `3` = checker error, `2` = undecided.  "
+      "replay file, `1n` = VIOLATION whose line ends with no-failing-input-found, `1b` = the changed code left the verifier's language subset (checker error) and the bounded stand-in found the failing input, `0` = exit 0, `3` = checker error, `2` = undecided.  "
       "The diagonal (the property the change was written against) is in bold.\n")
 print("| change | " + " | ".join(props) + " |")
 print("|---|" + "|".join(["---"] * len(props)) + "|")
